@@ -1,9 +1,66 @@
 import QV.Driver.Util
+import QV.Model.Codes
+import QV.Spec.Codes
 
 namespace QV.Driver
-open QV
+open QV QV.Codes QV.Spec.Codes
 
-/-- ops of group `codes` — stub (not built yet) -/
-def codesHandler : Handler := fun _ _ => none
+/-- ops of group `codes` (C17); text arguments are the hex of the UTF-8 octets -/
+private def kindArg (s : String) : Option Kind :=
+  if s = "t" then some .type else if s = "c" then some .class
+  else if s = "qt" then some .qtype else if s = "qc" then some .qclass else none
+
+private def mParse : Kind → Text → Out ParseErr Nat
+  | .type => typeFromStr
+  | .class => classFromStr
+  | .qtype => qtypeFromStr
+  | .qclass => qclassFromStr
+
+private def mDisplay : Kind → Nat → Text
+  | .type => typeDisplay
+  | .class => classDisplay
+  | .qtype => qtypeDisplay
+  | .qclass => qclassDisplay
+
+def codesHandler : Handler := fun op args =>
+  match op, args with
+  | "crt", [k, v] =>
+    match kindArg k, natArg v with
+    | some kd, some n =>
+      if n < 65536 then
+        some (showOut ParseErr.toString toString (mParse kd (mDisplay kd n)), s!"ok {n}")
+      else some bad
+    | _, _ => some bad
+  | "cpres", [k, v, h] =>
+    -- the text is what the implementation printed for `v` (a recorded input): the model must
+    -- print the same, and the spec demands that it *presents* `v` (RFC 3597 §5 / registry)
+    match kindArg k, natArg v, unhex h with
+    | some kd, some n, some t =>
+      if n < 65536 then
+        some (if mDisplay kd n = t.toList then "ok" else "differs:" ++ hexOfList (mDisplay kd n),
+              if specParse kd t.toList = some n then "ok" else "err")
+      else some bad
+    | _, _, _ => some bad
+  | "cparse", [k, h] =>
+    match kindArg k, unhex h with
+    | some kd, some t =>
+      some (showOut ParseErr.toString toString (mParse kd t.toList),
+            match specParse kd t.toList with
+            | some v => s!"ok {v}"
+            | none => "-")
+    | _, _ => some bad
+  | "copc", [x] =>
+    match natArg x with
+    | some n => if n < 256 then some (showOpt toString (opcodeTryFrom n), showOpt toString (specFourBit n)) else some bad
+    | none => some bad
+  | "crc", [x] =>
+    match natArg x with
+    | some n => if n < 256 then some (showOpt toString (rcodeTryFrom n), showOpt toString (specFourBit n)) else some bad
+    | none => some bad
+  | "cext", [x] =>
+    match natArg x with
+    | some n => if n < 65536 then some (showOpt toString (rcodeFromExt n), showOpt toString (specFourBit n)) else some bad
+    | none => some bad
+  | _, _ => none
 
 end QV.Driver
